@@ -418,6 +418,21 @@ fn arb_sc_value(sc: Sc) -> BoxedStrategy<PV> {
     }
 }
 
+/// Map keys: half of them from a pool of three per type, so that two independently generated
+/// values of a message share keys (merge: "later keys replace earlier equal keys").
+fn arb_map_key(sc: Sc) -> BoxedStrategy<PV> {
+    let pool: Vec<PV> = match sc {
+        Sc::Int32 | Sc::Sint32 | Sc::Sfixed32 => vec![PV::I32(0), PV::I32(7), PV::I32(-1)],
+        Sc::Int64 | Sc::Sint64 | Sc::Sfixed64 => vec![PV::I64(0), PV::I64(7), PV::I64(-1)],
+        Sc::Uint32 | Sc::Fixed32 => vec![PV::U32(0), PV::U32(7), PV::U32(u32::MAX)],
+        Sc::Uint64 | Sc::Fixed64 => vec![PV::U64(0), PV::U64(7), PV::U64(u64::MAX)],
+        Sc::Bool => vec![PV::Bool(false), PV::Bool(true)],
+        Sc::String => vec![PV::Str(vec![]), PV::Str(b"k".to_vec()), PV::Str(b"key".to_vec())],
+        _ => return arb_sc_value(sc),
+    };
+    prop_oneof![1 => prop::sample::select(pool), 1 => arb_sc_value(sc)].boxed()
+}
+
 pub fn arb_pv(doc: &PDoc, t: &PTy, depth: u32) -> BoxedStrategy<PV> {
     match t {
         PTy::Scalar(sc) => arb_sc_value(*sc),
@@ -487,7 +502,7 @@ pub fn arb_msg(doc: &PDoc, r: &Ref, depth: u32) -> BoxedStrategy<PMsg> {
                 }
                 let max = 3;
                 parts.push(
-                    prop::collection::vec((arb_sc_value(*k), arb_pv(doc, &f.ty, depth)), 0..=max)
+                    prop::collection::vec((arb_map_key(*k), arb_pv(doc, &f.ty, depth)), 0..=max)
                         .prop_map(move |es| {
                             let mut seen = std::collections::BTreeSet::new();
                             let es: Vec<(PV, PV)> = es.into_iter().filter(|(k, _)| seen.insert(k.clone())).collect();
